@@ -8,6 +8,7 @@ from harness.lib.core import VERIF, Ctx, lean_lock, run_driver, shrink_ops
 from harness.extract import software as x_sw
 from harness.extract import software_recv as x_recv
 from harness.extract import software_loader as x_load
+from harness.extract import software_regs as x_regs
 from harness.rigs import software as rig
 from harness.rigs import software_recv as wrig
 from harness.rigs import software_load as lrig
@@ -85,7 +86,7 @@ MANIFEST = {
     "design_ref": "5/C13",
 }
 MODULES = ["PrimaiteModel.Props.C13", "PrimaiteModel.Lemmas.RegistriesRep", "PrimaiteModel.Props.C13Recv", "PrimaiteModel.Props.C13Bots", "PrimaiteModel.Props.C13C2",
-           "PrimaiteModel.Props.C13Loader", "PrimaiteModel.Props.C13AppRun"]
+           "PrimaiteModel.Props.C13Loader", "PrimaiteModel.Props.C13AppRun", "PrimaiteModel.Props.C13Regs"]
 EXE = "drv_c13"
 EXE_W = "drv_c13recv"   # two nodes with class data and a transport (receive path, DNS / NTP payload processing)
 
@@ -407,6 +408,7 @@ def run(ctx: Ctx):
         ctx.extract("Software", x_sw.emit)
         ctx.extract("SoftwareRecv", x_recv.emit)
         ctx.extract("SoftwareLoader", x_load.emit)
+        ctx.extract("SoftwareRegs", x_regs.emit)
         ctx.prove(MODULES, exes=[EXE, EXE_W], clean=False, leanchecker=ctx.thorough)
     guards = _guards()
     ctx.cov["rule"] = ("cases = (node power and durations, operation sequence over install/uninstall (API and request) of every shipped "
